@@ -289,6 +289,13 @@ fn date_year(date: ds::Date) -> Option<i32> {
     }
 }
 
+/// Year of `date` once the day offset of a bound is taken away from it. The occurences of the
+/// bound which land next to `date` after being shifted are the ones of this year and of its
+/// neighbours, however large the offset is (a weekday offset moves a date by at most 6 days).
+fn year_before_offset(date: NaiveDate, offset: ds::DateOffset) -> i32 {
+    ds::add_days_saturating(date, offset.day_offset.saturating_neg()).year()
+}
+
 /// When the start of a dated range carries a year, the range denotes a single interval: from
 /// this start to the end on its own year if it carries one, else to the first occurence of the
 /// end which is not before the start. The resulting interval is empty if it ends before it
@@ -304,7 +311,9 @@ fn single_interval_from_bounds(
         if let Some(end_year) = date_year(end) {
             end_offset.apply(date_on_year(end, end_year, valid_ymd_before)?)
         } else {
-            (start_date.year() - 1..=start_date.year() + 2)
+            let end_year = year_before_offset(start_date, end_offset);
+
+            (end_year - 1..=end_year + 2)
                 .filter_map(|y| date_on_year(end, y, valid_ymd_before))
                 .map(|d| end_offset.apply(d))
                 .find(|end_date| *end_date >= start_date)
@@ -345,13 +354,18 @@ impl DateFilter for ds::MonthdayRange {
                 start: (start, start_offset),
                 end: (end, end_offset),
             } => {
-                let year = date.year();
+                // Occurences are looked for around the years they have to come from to land
+                // next to `date` once shifted.
+                let start_year = year_before_offset(date, *start_offset);
+                let end_year = year_before_offset(date, *end_offset);
 
                 if let (Date::Fixed { year: fixed_year, month, day }, true) = (*start, start == end)
                 {
                     let years = match fixed_year {
                         Some(fixed_year) => i32::from(fixed_year)..=i32::from(fixed_year),
-                        None => year - 1..=year + 1,
+                        // The first occurence which does not end before `date`: a day exists
+                        // at least once in 8 consecutive years (February 29th).
+                        None => end_year - 1..=end_year + 8,
                     };
 
                     return is_open_from_intervals(
@@ -368,10 +382,10 @@ impl DateFilter for ds::MonthdayRange {
 
                 is_open_from_bounds(
                     date,
-                    (year - 2..=year + 2)
+                    (start_year - 2..=start_year + 2)
                         .filter_map(|y| date_on_year(*start, y, valid_ymd_after))
                         .map(|d| start_offset.apply(d)),
-                    (year - 2..=year + 2)
+                    (end_year - 2..=end_year + 2)
                         .filter_map(|y| date_on_year(*end, y, valid_ymd_before))
                         .map(|d| end_offset.apply(d)),
                 )
@@ -440,13 +454,15 @@ impl DateFilter for ds::MonthdayRange {
                 start: (start, start_offset),
                 end: (end, end_offset),
             } => {
-                let year = date.year();
+                // Same years as in `filter`, and some more after them.
+                let start_year = year_before_offset(date, *start_offset);
+                let end_year = year_before_offset(date, *end_offset);
 
                 if let (Date::Fixed { year: fixed_year, month, day }, true) = (*start, start == end)
                 {
                     let years = match fixed_year {
                         Some(fixed_year) => i32::from(fixed_year)..=i32::from(fixed_year),
-                        None => year - 1..=year + 10,
+                        None => end_year - 1..=end_year + 10,
                     };
 
                     return Some(next_change_from_intervals(
@@ -463,10 +479,10 @@ impl DateFilter for ds::MonthdayRange {
 
                 Some(next_change_from_bounds(
                     date,
-                    (year - 2..=year + 10)
+                    (start_year - 2..=start_year + 10)
                         .filter_map(|y| date_on_year(*start, y, valid_ymd_after))
                         .map(|d| start_offset.apply(d)),
-                    (year - 2..=year + 10)
+                    (end_year - 2..=end_year + 10)
                         .filter_map(|y| date_on_year(*end, y, valid_ymd_before))
                         .map(|d| end_offset.apply(d)),
                 ))
